@@ -84,6 +84,8 @@ def build(eng, pattern, folders, opts, sym, names=None):
                   crc_at=opts.get("crc_at", "sub"), omit_numunpack=opts.get("omit_numunpack", True),
                   dummy=opts.get("dummy"), emptyfile_vector=opts.get("emptyfile_vector", False),
                   omit_substreams=opts.get("omit_substreams", False),
+                  bind_style=opts.get("bind_style", "chain"),
+                  inter_sizes=({(fi, ci): opts["inter"] for fi in range(nf) for ci in range(opts.get("ncoders", 1))} if opts.get("inter") else {}),
                   coder_ids=[b"\x21", b"\x03\x01\x01"])
     if opts.get("packcrc"):
         layout["packcrc"] = True
@@ -118,6 +120,8 @@ def shapes(tier, max_entries=None):
         ("ff", [1, 1], {"crc_at": "folder", "omit_substreams": True}),   # SubStreamsInfo absent
         ("ff", [1, 1], {"packcrc": True, "packcrc_defined": [False, True]}),   # packed-stream digests only partly defined
         ("fff", [2, 1], {"digests": "partial"}),                               # member digests only partly defined
+        # two coders bound the other way round: the folder's output is the FIRST coder's (its size is not the last one listed)
+        ("ff", [1, 1], {"ncoders": 2, "bind_style": "first-is-final", "inter": 7}),
         ("fdf", [1, 0, 1], {}),   # a folder without any substream (py7zr's own append of a lone directory leaves one)
         ("d", [], {}),
         ("", [], {}),
